@@ -653,7 +653,41 @@ type loopSpec struct {
 
 // discover runs body symbolically from st (discarding obligations) and reports which variables and heap
 // arrays it may write.
+// discover: the variables and heap arrays one loop iteration may write. One symbolic iteration from the pre-loop state
+// only sees the branches that are feasible in the FIRST iteration (a map that is still empty, a flag that is still
+// false); so the run is repeated from a state in which everything found so far is arbitrary, until nothing new
+// turns up. At that point an iteration started anywhere writes only what was found.
 func (f *Frame) discover(st *State, run func(s *State) []*State) (map[types.Object]bool, map[string]bool) {
+	vars := map[types.Object]bool{}
+	heaps := map[string]bool{}
+	cur := st
+	for round := 0; round < 8; round++ {
+		v, h := f.discoverOnce(cur, run)
+		grew := false
+		for k := range v {
+			if !vars[k] {
+				vars[k] = true
+				grew = true
+			}
+		}
+		for k := range h {
+			if !heaps[k] {
+				heaps[k] = true
+				grew = true
+			}
+		}
+		if !grew {
+			break
+		}
+		cur = st.clone()
+		f.c.discovery++
+		f.havoc(cur, vars, heaps)
+		f.c.discovery--
+	}
+	return vars, heaps
+}
+
+func (f *Frame) discoverOnce(st *State, run func(s *State) []*State) (map[types.Object]bool, map[string]bool) {
 	c := f.c
 	c.discovery++
 	savedRets := f.rets
